@@ -1,6 +1,13 @@
-"""C14 - queue family check (see lib/queuefam.py) + the Admin API / MCP request layer (lib/c14admin.py)."""
-from lib import c14admin, queuefam
+"""C14 - queue family check (see lib/queuefam.py) + the Admin API / MCP request layer (lib/c14admin.py)
++ the allowed-state sets of the operator mutations tied to the Go sources by translation (lib/c02trans.py)."""
+from lib import c02trans, c14admin, queuefam
+
+
+def _extra(ctx, info, rng, fam, hs):
+    cov = c14admin.run(ctx, info, rng, fam, hs) or {}
+    cov.update(c02trans.run_manage_only(ctx, info, rng, fam, hs) or {})
+    return cov
 
 
 def main(ctx, replay):
-    return queuefam.run_property(ctx, "C14", 150, 3000, extra=c14admin.run, extra_prop_files=("C14admin",))
+    return queuefam.run_property(ctx, "C14", 150, 3000, extra=_extra, extra_prop_files=("C14admin", "C02trans"))
